@@ -19,6 +19,11 @@ CHECKS = {
    note="Trusted: Coq kernel; the order-preserving printer in harness/src/bin/c20.rs; sampling of per-process hash seeds (4 processes quick, 16 thorough; 4-8 repetitions per process). Conversions whose code iterates no hash map are deterministic by construction; that they iterate none is supported by the repeated runs only. Gridded-layout compilation is covered through C08's harness in thorough tier only when available.",
    technique="Coq theorem on order-oracle independence of sorted iteration + repeated-run differential check across processes",
    design="5/C20"),
+ "C17": dict(
+   text="Coq theorems over executable models of all dependency orderers (Properties/C17.v), for every graph, listing order and sharing structure, with no size bound. The generic helper (seen+pending sets; PlaceOrder, CellOrder): a returned order is duplicate-free, contains exactly the reachable items and lists every item after all its dependencies; with recursion depth |nodes|+1 it never recurses further, and returns the error iff a cycle (incl. self-reference) is reachable; it never panics. The three hand-rolled orderers (raw DepOrder, tetris DepOrder, GdsDepOrder): the code as found is proved correct on every acyclic closed graph and proved to VIOLATE the cycle clause (unbounded recursion on every cyclic graph, panic on a dangling GDSII name); the repaired code (pending set + error return, fix commits e6fd6b8, 062c6ff, af0d42c) is modelled and proved to satisfy the property in full (C17_repaired_total). Tied to the code by a correspondence run comparing exact output orders through seven entry points: exhaustive over all digraphs with self-loops on <=3 (quick) / <=4 nodes in every listing order plus all loop-free digraphs on 5 nodes (thorough); random DAGs, cyclic and arbitrary digraphs up to 60 nodes; raw/tetris cell libraries, GDSII struct libraries and relative-placement forests up to 300 nodes; cyclic and dangling inputs one per process. The oracle (topo_okb, cycle_walkb) is proved sound, and topo_okb complete, w.r.t. the Prop specification.",
+   note="Trusted: Coq kernel (no axioms); harness and generators; `process` modelled as 'push every dependency'; hash sets as lists (never iterated); fuel = recursion depth, 'OutOfFuel for all fuel' corresponds to stack overflow (observed as process abort); GDS struct names assumed distinct; lock poisoning not modelled; the choice of as-found vs repaired model is made by a textual check for a `pending` field in the three orderer structs.",
+   technique="Coq proof over executable DFS models + differential correspondence (vm_compute) against seven entry points",
+   design="5/C17"),
 }
 REASON_PENDING = "not yet built in this round; planned in DESIGN.md section 5 (Coq model + correspondence)"
 def main():
